@@ -135,19 +135,55 @@ def _link(rng, consistent=0.8):
     return {"path": h(path), "unlinked": unlinked, "garbage": None if g is None else h(g), "lit": lit}
 
 
-ARGV0 = [b"/usr/bin/prog", b"/opt/my app/run", b"prog", b"./prog", b"/bin/\xff", b"", b"/x y", b"/usr/bin/prog", b"/sbin/init"]
+PVBASE = b"/pvbase"   # placeholder for a real directory of the worker: objects below it are created on disk and reached unpatched
+ARGV0 = [b"/usr/bin/prog", b"/opt/my app/run", b"prog", b"./prog", b"/bin/\xff", b"", b"/x y", b"/usr/bin/prog", b"/sbin/init",
+         b"/", PVBASE + b"/bin", PVBASE + b"/bin/", PVBASE + b"/bin/prog", PVBASE + b"/bin/data", PVBASE + b"/bin/nothing"]
+KINDS = ["regx", "reg", "dir"]
 
 
-def _kproc(rng, comm=b"prog", link_p=0.4, cr=0.02):
-    a0 = rng.choice(ARGV0)
-    cmd = _cmd(rng, cr, argv0=a0 if rng.random() < 0.8 else None)
-    xf = []
-    cands = [a0, a0.split(b" ")[0], b"/usr/bin/other"]
-    for c in cands:
-        if c and b"\x00" not in c and rng.random() < 0.6:
-            xf.append(c)
+def _paths_for(rng, a0s, mode=None):
+    """file-system content around the candidate paths: each candidate is an executable file, a plain file, a directory
+    or absent; '/' and <base>/bin[/] are always directories, names below <base>/bin keep their fixed kinds"""
+    out, seen = [], set()
+    fixed = {b"/": "dir", PVBASE + b"/bin": "dir", PVBASE + b"/bin/": "dir", PVBASE + b"/bin/prog": "regx", PVBASE + b"/bin/data": "reg"}
+    for c in a0s:
+        if not c or b"\x00" in c or c in seen:
+            continue
+        seen.add(c)
+        if c in fixed:
+            out.append([h(c), fixed[c]])
+        elif c.startswith(PVBASE) or c.endswith(b"/"):
+            continue   # dangling below the real directory / trailing slash on something that is not a known directory
+        else:
+            k = mode or rng.choice(["regx", "regx", "reg", "dir", None])
+            if k is not None:
+                out.append([h(c), k])
+    return out
+
+
+def _kproc(rng, comm=b"prog", link_p=0.4, cr=0.02, a0=None, kind=None, how=None):
+    a0 = rng.choice(ARGV0) if a0 is None else a0
+    cmd = _cmd(rng, cr, argv0=a0 if rng.random() < 0.85 or kind else None)
+    first = unh(cmd["parts"][0]) if cmd["parts"] else b""
+    cands = [a0, first, first.split(b" ")[0], a0.split(b" ")[0], b"/usr/bin/other"]
     return {"comm": h(comm), "cmd": cmd, "exe": _link(rng, 0.9) if rng.random() < link_p else None,
-            "esrch": rng.random() < 0.3, "xfiles": [h(x) for x in xf]}
+            "how": how or rng.choice(["ENOENT", "ENOENT", "ESRCH", "EACCES"]), "paths": _paths_for(rng, cands, kind)}
+
+
+def _fallback_cls(r):
+    """class of an exe() case by what cmdline()[0] is"""
+    if r["exe"] is not None:
+        return "exe-link"
+    parts = [unh(x) for x in r["cmd"]["parts"]]
+    pre = "exe-denied" if r["how"] == "EACCES" else "exe-withheld"
+    if not parts:
+        return pre + "-nocmdline"
+    a0 = parts[0]
+    if r["cmd"]["form"] == "argv" and len(parts) == 1:
+        a0 = a0.split(b" ")[0]
+    kind = dict((unh(q), k) for q, k in reversed(r["paths"])).get(a0)
+    rel = "" if a0.startswith(b"/") else "-relative"
+    return pre + "-" + {None: "dangling", "regx": "execfile", "reg": "plainfile", "dir": "directory"}[kind] + rel
 
 
 NAME_POOL = [b"gnome-keyring-daemon", b"python3", b"exactly15bytes!", b"fourteen_bytes", b"sixteen_bytes_xx",
@@ -177,7 +213,7 @@ def _name_case(rng):
         a0 = pre + b"other"
     else:
         a0 = n + b"/"
-    r = _kproc(rng, comm=comm, link_p=0.0, cr=0.01)
+    r = _kproc(rng, comm=comm, link_p=0.0, cr=0.01, how="ENOENT")
     k = rng.random()
     if k < 0.8:
         parts = [a0] + [_arg(rng, 0.01) for _ in range(rng.choice([0, 1, 2]))]
@@ -211,7 +247,7 @@ def _view(rng):
     pdir = rng.random() < 0.85
     if not pdir:
         return {"pdir": False, "stat": None, "comm": h(b"gone"), "cmdline": ["ENOENT"], "environ": ["ENOENT"],
-                "exe": [rng.choice(["ENOENT", "ESRCH"])], "cwd": [rng.choice(["ENOENT", "ESRCH"])], "xfiles": []}
+                "exe": [rng.choice(["ENOENT", "ESRCH"])], "cwd": [rng.choice(["ENOENT", "ESRCH"])], "paths": []}
     stat = rng.choice(["S", "S", "S", "Z", None])
     comm = rng.choice(NAME_POOL)[:15]
     k = rng.random()
@@ -225,7 +261,7 @@ def _view(rng):
     a0 = data.split(b"\x00")[0]
     return {"pdir": True, "stat": stat, "comm": h(comm), "cmdline": _file_res(rng, data), "environ": _file_res(rng, env),
             "exe": _link_res(rng), "cwd": _link_res(rng),
-            "xfiles": [h(x) for x in [a0, a0.split(b" ")[0]] if x and b"\x00" not in x and rng.random() < 0.5]}
+            "paths": _paths_for(rng, [a0, a0.split(b" ")[0]])}
 
 
 UDEC_ALPHA = [0x41, 0x7f, 0x80, 0xbf, 0xc0, 0xc1, 0xc2, 0xc3, 0xa9, 0xdf, 0xe0, 0xa0, 0x9f, 0xed, 0xee, 0xef, 0xf0, 0x90, 0x8f,
@@ -250,7 +286,7 @@ def gen_cases(rng, tier):
         for k in range(6):
             for combo in itertools.product([0, 32, 97, 13, 10], repeat=k):
                 v = {"pdir": True, "stat": "S", "comm": h(b"p"), "cmdline": ["data", h(bytes(combo))], "environ": ["ENOENT"],
-                     "exe": ["ENOENT"], "cwd": ["ENOENT"], "xfiles": []}
+                     "exe": ["ENOENT"], "cwd": ["ENOENT"], "paths": []}
                 cases.append({"kind": "view", "cls": "exh-cmdraw" if combo else "trivial", "steps": [{"view": v, "op": "cmdline"}]})
     for _ in range(2 * n):
         cmd = _cmd(rng)
@@ -270,10 +306,20 @@ def gen_cases(rng, tier):
         l = _link(rng)
         cls = "link" + ("-unlinked" if l["unlinked"] else "") + ("-garbage" if l["garbage"] is not None else "")
         cases.append({"kind": "link", "cls": cls, "which": rng.choice(["exe", "cwd"]), "link": l})
-    for _ in range(n):
-        r, r2 = _kproc(rng), _kproc(rng, link_p=0.7)
-        cls = "exe-link" if r["exe"] else "exe-withheld"
-        cases.append({"kind": "exe", "cls": cls, "r": r, "r2": r2})
+    # exe() fallback: every combination of what cmdline()[0] is x how the link is refused (both tiers)
+    if tier != "search":
+        for a0, kind in [(b"/", "dir"), (PVBASE + b"/bin", "dir"), (PVBASE + b"/bin/", "dir"), (PVBASE + b"/bin/prog", "regx"),
+                         (PVBASE + b"/bin/data", "reg"), (PVBASE + b"/bin/nothing", None), (b"/usr/bin/prog", "regx"),
+                         (b"/usr/bin/prog", "reg"), (b"/usr/bin/prog", "dir"), (b"/usr/bin/prog", None), (b"prog", "regx"),
+                         (b"./prog", "regx"), (b"prog", "dir"), (b"/bin/\xff", "regx"), (b"/bin/\xff", "dir")]:
+            for how in ("ENOENT", "ESRCH", "EACCES"):
+                r = {"comm": h(b"prog"), "cmd": {"form": "argv", "parts": [h(a0), h(b"-x")], "term": "nul"}, "exe": None, "how": how,
+                     "paths": _paths_for(rng, [a0], kind) if kind else []}
+                r2 = _kproc(rng, link_p=0.5)
+                cases.append({"kind": "exe", "cls": "exh-" + _fallback_cls(r), "r": r, "r2": r2})
+    for _ in range(2 * n):
+        r, r2 = _kproc(rng), _kproc(rng, link_p=0.6)
+        cases.append({"kind": "exe", "cls": _fallback_cls(r), "r": r, "r2": r2})
     for _ in range(2 * n):
         r = _name_case(rng)
         comm = unh(r["comm"])
@@ -307,9 +353,13 @@ def _g_link(l):
                                           G.opt(l["garbage"], lambda g: G.by(unh(g))), G.bo(l["lit"]))
 
 
+def _g_paths(ps):
+    return G.lst(["(%s, %s)" % (G.by(unh(q)), {"regx": "PRegX", "reg": "PReg", "dir": "PDir"}[k]) for q, k in ps])
+
+
 def _g_kproc(r):
-    return "(Build_kproc %s %s %s %s %s)" % (G.by(unh(r["comm"])), _g_cmd(r["cmd"]), G.opt(r["exe"], _g_link), G.bo(r["esrch"]),
-                                             G.lst([G.by(unh(x)) for x in r["xfiles"]]))
+    return "(Build_kproc %s %s %s W%s %s)" % (G.by(unh(r["comm"])), _g_cmd(r["cmd"]), G.opt(r["exe"], _g_link), r["how"],
+                                              _g_paths(r["paths"]))
 
 
 def _g_file(f):
@@ -326,7 +376,7 @@ def _g_view(v):
     stat = {None: "None", "S": "(Some false)", "Z": "(Some true)"}[v["stat"]]
     return "(Build_pview %s %s %s %s %s %s %s %s)" % (G.bo(v["pdir"]), stat, G.by(unh(v["comm"])), _g_file(v["cmdline"]),
                                                       _g_file(v["environ"]), _g_lres(v["exe"]), _g_lres(v["cwd"]),
-                                                      G.lst([G.by(unh(x)) for x in v["xfiles"]]))
+                                                      _g_paths(v["paths"]))
 
 
 OPS = {"name": "OpName", "exe": "OpExe", "cmdline": "OpCmdline", "environ": "OpEnviron", "cwd": "OpCwd"}
@@ -394,18 +444,18 @@ def finding_key(case, coq):
 def _proc_view(r, printed_cmd, printed_link):
     """pview of a kernel-shaped process record (mirror of Spec.view_proc; bytes come from the Coq printers)."""
     if r["exe"] is None:
-        exe = ["ESRCH" if r["esrch"] else "ENOENT"]
+        exe = [r["how"]]
     else:
         exe = ["target", printed_link["b"], "exists" if r["exe"]["lit"] else "missing"]
     return {"pdir": True, "stat": "S", "comm": r["comm"], "cmdline": ["data", printed_cmd["b"]], "environ": ["data", ""],
-            "exe": exe, "cwd": ["ENOENT"], "xfiles": r["xfiles"]}
+            "exe": exe, "cwd": ["ENOENT"], "paths": r["paths"]}
 
 
 def _steps_of(case, coq):
     """-> list of (view, op, model-side cmdline outcome for that view)"""
     k = case["kind"]
     base = {"pdir": True, "comm": h(b"x"), "cmdline": ["data", ""], "environ": ["data", ""], "exe": ["ENOENT"],
-            "cwd": ["ENOENT"], "xfiles": [], "stat": "S"}
+            "cwd": ["ENOENT"], "paths": [], "stat": "S"}
     if k == "cmd":
         v = dict(base, cmdline=["data", coq["printed"]["b"]], stat="Z" if case["zombie"] else "S")
         return [(v, "cmdline", None)]
